@@ -16,7 +16,7 @@ CHECKS = {
              "requests with fresh sequence numbers; fault-free twin succeeds for every (start,length); two transfers in a row on "
              "one threaded structure, the first dying by time-out after a prefix; two structures transferring at once.",
         note="Bounded: <=2 segments/2 deliveries per attempt/2 attempts (quick), <=3/3/2 (thorough); fault-free twin for "
-             "length <=200 (quick) / <=390 (thorough). Timeout scaled to 3 polls (config data, not code).",
+             "length <=200 (quick) / <=312 (thorough). Timeout scaled to 3 polls (config data, not code).",
         ref="5/C01"),
     "C02": dict(
         text="Every distinct item signature of the 151 shipped cfg/log tables (class, type, width, bit position, labels, "
